@@ -65,6 +65,11 @@ func (t *tr) closure(fl *ast.FuncLit) string {
 		sp.Ret, sp.RetParam, sp.PlainUpdate = RetVal, t.ident(optParam), true
 	case optParam != "" && len(results) == 1 && isErr(results[0]):
 		sp.Ret, sp.RetParam, sp.PlainUpdate = RetErr, t.ident(optParam), true
+	case len(results) == 0 && !hasWriter && sp.ClosureState != "" && containsStr(names, t.ident(sp.ClosureState)):
+		// (C14) the closure's effect is the final value of the parameter it mutates
+		st := t.ident(sp.ClosureState)
+		sp.Ret, sp.RetParam = RetVal, sp.ClosureState
+		k = func() string { return st }
 	case len(results) == 0:
 		if !hasWriter {
 			return t.bad("closure without result and without the response writer", fl)
@@ -123,4 +128,13 @@ func (t *tr) ifCommaOk(x *ast.IfStmt, cont cont) (string, bool) {
 	thenB := t.block(x.Body.List, cont)
 	t.indent--
 	return bind + "(if " + t.ident(okv) + " then\n" + t.pad() + "  " + thenB + "\n" + t.pad() + "else\n" + t.pad() + cont() + ")", true
+}
+
+func containsStr(l []string, x string) bool {
+	for _, y := range l {
+		if y == x {
+			return true
+		}
+	}
+	return false
 }
